@@ -17,7 +17,6 @@ Definition DIFSECT    : N := 4294967292.         (* 0xFFFF_FFFC *)
 Definition FATSECT    : N := 4294967293.         (* 0xFFFF_FFFD *)
 Definition ENDOFCHAIN : N := 4294967294.         (* 0xFFFF_FFFE *)
 Definition FREESECT   : N := 4294967295.         (* 0xFFFF_FFFF *)
-Definition ISIZE_MAX  : N := 9223372036854775807.
 
 (* error classes of CfbError *)
 Definition ERR_IO : N := 1.
@@ -55,6 +54,9 @@ Fixpoint seqN_from (start : N) (n : nat) : list N :=
 Definition seqN (n : nat) : list N := seqN_from 0 n.          (* [0; 1; …; n-1] *)
 Fixpoint take_until_nul (s : list N) : list N :=
   match s with [] => [] | c :: r => if c =? 0 then [] else c :: take_until_nul r end.
+(* slice::chunks_exact(n): only the whole pieces *)
+Definition chunks_exact (A : Type) (n : nat) (l : list A) : list (list A) :=
+  filter (fun c => (length c =? n)%nat) (chunks n l).
 Fixpoint map_outcome (A B : Type) (f : A -> outcome B) (l : list A) : outcome (list B) :=
   match l with
   | [] => Ok []
@@ -71,56 +73,26 @@ Definition u32_at (b : list N) (o : nat) : N :=
   nth o b 0 + 256 * nth (1 + o) b 0 + 65536 * nth (2 + o) b 0 + 16777216 * nth (3 + o) b 0.
 Definition u64_at (b : list N) (o : nat) : N := u32_at b o + 4294967296 * u32_at b (4 + o).
 
-(* utils::to_u32: assert_eq!(s.len() % 4, 0); s.chunks(4).map(u32::from_le_bytes) *)
+(* utils::to_u32: s.chunks_exact(4).map(u32::from_le_bytes) — trailing bytes that do not fill a
+   word are dropped (before the hardening of cfb.rs this was an assertion).  Kept as an outcome
+   so that the callers read as before; it is always Ok. *)
 Fixpoint to_u32_aux (b : list N) : list N :=
   match b with
   | b0 :: b1 :: b2 :: b3 :: r => (b0 + 256 * b1 + 65536 * b2 + 16777216 * b3) :: to_u32_aux r
   | _ => []
   end.
-Definition to_u32 (b : list N) : outcome (list N) :=
-  if lenN b mod 4 =? 0 then Ok (to_u32_aux b) else Panic.
+Definition to_u32 (b : list N) : outcome (list N) := Ok (to_u32_aux b).
 
 (* Read::read_exact *)
 Definition read_exact (n : N) (r : list N) : outcome (list N * list N) :=
   if lenN r <? n then Err ERR_IO else Ok (takeN n r, dropN n r).
 
-(* ------------------------------------------------------------------ UTF-8 (WHATWG decoder) *)
-(* Only reached through the BOM sniffing of Encoding::decode (see decode_name). *)
-Fixpoint utf8_dec (b : list N) (needed seen cp lo hi : N) : list N :=
-  match b with
-  | [] => if needed =? 0 then [] else [REPL]
-  | x :: r =>
-    let st0 :=
-      if x <=? 127 then x :: utf8_dec r 0 0 0 128 191
-      else if (194 <=? x) && (x <=? 223) then utf8_dec r 1 0 (x - 192) 128 191
-      else if (224 <=? x) && (x <=? 239) then
-        utf8_dec r 2 0 (x - 224) (if x =? 224 then 160 else 128) (if x =? 237 then 159 else 191)
-      else if (240 <=? x) && (x <=? 244) then
-        utf8_dec r 3 0 (x - 240) (if x =? 240 then 144 else 128) (if x =? 244 then 143 else 191)
-      else REPL :: utf8_dec r 0 0 0 128 191 in
-    if needed =? 0 then st0
-    else if (lo <=? x) && (x <=? hi) then
-      let cp' := cp * 64 + (x - 128) in
-      if seen + 1 =? needed then cp' :: utf8_dec r 0 0 0 128 191
-      else utf8_dec r needed (seen + 1) cp' 128 191
-    else REPL :: st0
-  end.
-Definition utf8_decode_lossy (b : list N) : list N := utf8_dec b 0 0 0 128 191.
-
 (* ------------------------------------------------------------------ Directory::from_slice *)
 Record dirent := { d_name : list N; d_start : N; d_len : N }.
 
-(* UTF_16LE.decode(&buf[..64]) — Encoding::decode sniffs a byte-order mark first: EF BB BF
-   switches to UTF-8, FF FE is removed, FE FF switches to UTF-16BE — then the String is cut at
-   its first NUL. *)
-Definition decode_name (b : list N) : list N :=
-  let b0 := nth 0 b 0 in let b1 := nth 1 b 0 in let b2 := nth 2 b 0 in
-  let s :=
-    if (b0 =? 239) && (b1 =? 187) && (b2 =? 191) then utf8_decode_lossy (skipn 3 b)
-    else if (b0 =? 255) && (b1 =? 254) then utf16le_decode_bytes (skipn 2 b)
-    else if (b0 =? 254) && (b1 =? 255) then utf16be_decode_bytes (skipn 2 b)
-    else utf16le_decode_bytes b in
-  take_until_nul s.
+(* UTF_16LE.decode_without_bom_handling(&buf[..64]) (since the fix of class bom_name: before it,
+   Encoding::decode sniffed a byte-order mark), then the String is cut at its first NUL. *)
+Definition decode_name (b : list N) : list N := take_until_nul (utf16le_decode_bytes b).
 
 Definition from_slice (buf : list N) (ss : N) : outcome dirent :=
   if (length buf <? 64)%nat then Panic else            (* &buf[..64] *)
@@ -141,60 +113,54 @@ Record sectors := { sdata : list N; ssize : N }.
 Definition sector (size : N) (body : list N) (id : N) : list N :=
   takeN size (dropN (id * size) body).
 
-(* Sectors::get: returns (slice, updated cache, reader).  The cache grows to `end` by reading
-   from the reader; at end of input the cache stays resized (zero filled) and the slice
-   data[start..len] is returned (slice panic when start > len). *)
+(* Sectors::get: returns (slice, updated cache, reader).  On a cache miss the cache grows by what
+   the reader still delivers up to `end` (r.take(missing).read_to_end), never by zero filling;
+   the slice is data[start .. min(end, data.len())], an I/O error when start lies beyond. *)
 Definition get (s : sectors) (id : N) (r : list N) : outcome (list N * sectors * list N) :=
   let start := id * ssize s in
   let end_ := start + ssize s in
   let dl := lenN (sdata s) in
-  if dl <? end_ then
-    let need := end_ - dl in
-    let avail := N.min need (lenN r) in
-    if avail <? need then
-      if dl + avail <? start then Panic
-      else
-        let data' := sdata s ++ takeN avail r ++ repeat 0 (N.to_nat (need - avail)) in
-        Ok (takeN (dl + avail - start) (dropN start data'),
-            {| sdata := data'; ssize := ssize s |}, dropN avail r)
-    else
-      let data' := sdata s ++ takeN need r in
-      Ok (takeN (ssize s) (dropN start data'), {| sdata := data'; ssize := ssize s |}, dropN need r)
-  else Ok (takeN (ssize s) (dropN start (sdata s)), s, r).
+  let '(data', r') :=
+    if dl <? end_ then
+      let avail := N.min (end_ - dl) (lenN r) in
+      (sdata s ++ takeN avail r, dropN avail r)
+    else (sdata s, r) in
+  let e := N.min end_ (lenN data') in
+  if e <? start then Err ERR_IO
+  else Ok (takeN (e - start) (dropN start data'), {| sdata := data'; ssize := ssize s |}, r').
 
-(* the while loop of get_chain *)
-Fixpoint get_chain_loop (fuel : nat) (s : sectors) (id : N) (fats : list N) (r : list N)
+(* the while loop of get_chain: `remaining` starts at fats.len() and bounds the number of
+   sectors visited (a chain longer than its allocation table comes back on itself: I/O error);
+   an id outside the table is an I/O error too *)
+Fixpoint get_chain_loop (remaining : nat) (s : sectors) (id : N) (fats : list N) (r : list N)
   : outcome (list N * sectors * list N) :=
-  match fuel with
-  | O => OutOfFuel
-  | S f =>
-    if id =? ENDOFCHAIN then Ok ([], s, r)
-    else
+  if id =? ENDOFCHAIN then Ok ([], s, r)
+  else
+    match remaining with
+    | O => Err ERR_IO                                    (* "cyclic sector chain" *)
+    | S k =>
       do (sl, s1, r1) <- get s id r;
       match nth_error fats (N.to_nat id) with
-      | None => Panic                                   (* fats[sector_id as usize] *)
+      | None => Err ERR_IO                               (* fats.get(sector_id) *)
       | Some nx =>
-        do (rest, s2, r2) <- get_chain_loop f s1 nx fats r1;
+        do (rest, s2, r2) <- get_chain_loop k s1 nx fats r1;
         Ok (sl ++ rest, s2, r2)
       end
-  end.
+    end.
 
 Definition truncate (len : N) (c : list N) : list N :=
   if (0 <? len) && (len <? lenN c) then takeN len c else c.
 
-Definition chain_fuel (fats : list N) : nat := S (length fats).
-
 Definition get_chain (s : sectors) (id : N) (fats : list N) (r : list N) (len : N)
   : outcome (list N * sectors * list N) :=
-  if ISIZE_MAX <? len then Panic else                   (* Vec::with_capacity: capacity overflow *)
-  do (c, s1, r1) <- get_chain_loop (chain_fuel fats) s id fats r;
+  do (c, s1, r1) <- get_chain_loop (length fats) s id fats r;
   Ok (truncate len c, s1, r1).
 
 (* ------------------------------------------------------------------ Header::from_reader *)
 Record header := {
   h_version : N; h_ss : N; h_dir_len : N; h_dir_start : N; h_fat_len : N;
   h_mini_fat_len : N; h_mini_fat_start : N; h_difat_start : N;
-  h_difat_len : N   (* sic: read_usize(&buf[62..76]), only used as a Vec capacity *)
+  h_difat_len : N   (* only used as a Vec capacity *)
 }.
 Definition SIGNATURE : list N := [208; 207; 17; 224; 161; 177; 26; 225].
 
@@ -211,7 +177,7 @@ Definition header_from_reader (r : list N) : outcome (header * list N * list N) 
   Ok ({| h_version := u16_at buf 26; h_ss := ss;
          h_dir_len := u32_at buf 40; h_dir_start := u32_at buf 48; h_fat_len := u32_at buf 44;
          h_mini_fat_len := u32_at buf 64; h_mini_fat_start := u32_at buf 60;
-         h_difat_start := u32_at buf 68; h_difat_len := u32_at buf 62 |}, difat, r2).
+         h_difat_start := u32_at buf 68; h_difat_len := u32_at buf 72 |}, difat, r2).
 
 (* ------------------------------------------------------------------ Cfb::new *)
 Record cfb := {
@@ -225,19 +191,29 @@ Record cfb := {
 Definition pop (A : Type) (l : list A) : option (list A * A) :=
   match rev l with [] => None | x :: t => Some (rev t, x) end.
 
-(* while sector_id < RESERVED_SECTORS { difat.extend(to_u32(get(sector_id))); sector_id = difat.pop().unwrap() } *)
-Fixpoint difat_loop (fuel : nat) (s : sectors) (id : N) (difat : list N) (r : list N)
+(* while sector_id < RESERVED_SECTORS {
+     sector = get(sector_id)?; if sector.len() < sector_size { Err } difat.extend(to_u32(sector));
+     sector_id = difat.pop().unwrap_or(ENDOFCHAIN);
+     difat_sectors += 1; if difat_sectors > sectors.data.len() / sector_size { Err } }
+   [n] = difat_sectors.  The loop ends by itself (n is bounded by the sectors read, hence by the
+   file); [fuel] only makes the definition structural: any fuel above the number of sectors of
+   the file suffices. *)
+Fixpoint difat_loop (fuel : nat) (n : N) (s : sectors) (id : N) (difat : list N) (r : list N)
   : outcome (list N * sectors * list N) :=
   match fuel with
   | O => OutOfFuel
   | S f =>
     if id <? RESERVED_SECTORS then
       do (sl, s1, r1) <- get s id r;
-      do ents <- to_u32 sl;
-      match pop (difat ++ ents) with
-      | None => Panic                                   (* difat.pop().unwrap() *)
-      | Some (d, last) => difat_loop f s1 last d r1
-      end
+      if lenN sl <? ssize s then Err ERR_IO             (* "truncated DIFAT sector" *)
+      else
+        do ents <- to_u32 sl;
+        let '(d, nx) := match pop (difat ++ ents) with
+                        | None => (difat ++ ents, ENDOFCHAIN)
+                        | Some (d, last) => (d, last)
+                        end in
+        if lenN (sdata s1) / ssize s <? n + 1 then Err ERR_IO   (* "cyclic DIFAT sector chain" *)
+        else difat_loop f (n + 1) s1 nx d r1
     else Ok (difat, s, r)
   end.
 
@@ -256,10 +232,10 @@ Fixpoint load_fats (ids : list N) (s : sectors) (r : list N) : outcome (list N *
 Definition cfb_new (fuel : nat) (file : list N) : outcome (cfb * list N) :=
   do (h, difat0, r0) <- header_from_reader file;
   let s0 := {| sdata := []; ssize := h_ss h |} in
-  do (difat, s1, r1) <- difat_loop fuel s0 (h_difat_start h) difat0 r0;
+  do (difat, s1, r1) <- difat_loop fuel 0 s0 (h_difat_start h) difat0 r0;
   do (fat, s2, r2) <- load_fats (filter (fun id => id <? DIFSECT) difat) s1 r1;
   do (dirbytes, s3, r3) <- get_chain s2 (h_dir_start h) fat r2 (h_dir_len h * h_ss h);
-  do dirs <- map_outcome (fun c => from_slice c (h_ss h)) (chunks 128 dirbytes);
+  do dirs <- map_outcome (fun c => from_slice c (h_ss h)) (chunks_exact 128 dirbytes);
   match dirs with
   | [] => Err ERR_EMPTY_ROOT
   | d0 :: _ =>
@@ -284,7 +260,8 @@ Definition get_stream (c : cfb) (name : list N) (r : list N) : outcome (list N *
   match find_dir name (directories c) with
   | None => Err ERR_NOT_FOUND
   | Some d =>
-    if d_len d <? 4096 then
+    if d_len d =? 0 then Ok ([], c, r)        (* an empty stream owns no sector *)
+    else if d_len d <? 4096 then
       do (b, ms, r1) <- get_chain (mini_sectors c) (d_start d) (mini_fats c) r (d_len d);
       Ok (b, {| directories := directories c; main_sectors := main_sectors c; fats := fats c;
                 mini_sectors := ms; mini_fats := mini_fats c |}, r1)
@@ -333,7 +310,8 @@ Record layout := {
   l_chains : list (list N);    (* per stream: its sector chain (>= 4096 bytes) or mini-sector chain *)
   l_slots : list N;            (* directory slot of every storage, then of every stream (>= 1) *)
   l_pad : N;                   (* filler byte of free sectors and of the tail of last sectors *)
-  l_size_hi : N                (* version 3: upper half of the 64-bit size field (ignored garbage) *)
+  l_size_hi : N;               (* version 3: upper half of the 64-bit size field (ignored garbage) *)
+  l_empty_start : N            (* start-sector field of zero-length streams (ENDOFCHAIN, 0, FREESECT, …) *)
 }.
 
 Definition ROOT_NAME : list N := [82; 111; 111; 116; 32; 69; 110; 116; 114; 121]. (* "Root Entry" *)
@@ -398,7 +376,7 @@ Definition difat_header (l : layout) : list N := firstn 109 (l_fat_ids l ++ repe
 (* directory *)
 Definition items c l : list (list N * N * N * N) :=       (* name, object type, start, size *)
   map (fun n => (n, 1, 0, 0)) (c_storages c) ++
-  map (fun p => (fst (fst p), 2, hd ENDOFCHAIN (snd p), lenN (snd (fst p)))) (stream_chains c l).
+  map (fun p => (fst (fst p), 2, hd (l_empty_start l) (snd p), lenN (snd (fst p)))) (stream_chains c l).
 
 Definition encode_entry (ss hi : N) (it : list N * N * N * N) : list N :=
   let '(name, typ, start, size) := it in
@@ -503,22 +481,8 @@ Definition valid_layoutb (c : container) (l : layout) : bool :=
   (l_nmini l <=? N.of_nat (length (l_minifat_ids l)) * epf ss) &&
   (l_nmini l * 64 <=? N.of_nat (length (l_root_ids l)) * ss) &&
   (l_nmini l <? 67108864) &&
-  (l_pad l <? 256) && (l_size_hi l <? 4294967296).
+  (l_pad l <? 256) && ((l_size_hi l <? 4294967296) && (l_empty_start l <? 4294967296)).
 Definition valid_layout c l : Prop := valid_layoutb c l = true.
-
-(* ------------------------------------------------------------------ known classes *)
-(* class 1: a directory name whose UTF-16LE bytes begin like a byte-order mark (U+FEFF, U+FFFE,
-   or U+BBEF followed by a unit whose low byte is BF): Directory::from_slice decodes the name
-   with BOM sniffing, so the entry is not found under its name. *)
-Definition bom_lookalike (n : list N) : bool :=
-  match utf16_encode n with
-  | u0 :: rest =>
-    (u0 =? 65279) || (u0 =? 65534) ||
-    ((u0 =? 48111) && match rest with u1 :: _ => u1 mod 256 =? 191 | [] => false end)
-  | [] => false
-  end.
-Definition known_C13 (c : container) (l : layout) : option N :=
-  if existsb bom_lookalike (all_names c) then Some 1 else None.
 
 (* the specification: what reading stream [name] must give *)
 Definition spec_stream (c : container) (name : list N) : option (list N) :=
